@@ -8,7 +8,7 @@ SPEC = {
     "needs_plz": False,
     "level": "proof",
     "level_text": (
-        "FULL. After the two fix: commits (07b1616 blacklist by whole path components, effef99 SkipDir for directories only) "
+        "FULL. After the two fix: commits (9c9279b blacklist by whole path components, 9274bd1 SkipDir for directories only) "
         "C22_exact proves, for all trees, configurations, start directories and listing orders (unbounded, mutual structural "
         "induction), that FindAllBuildFiles(config, dir, \"\") yields exactly the specified list: the BUILD files of the "
         "directories under dir that are not plz-out, hidden, experimental or blacklisted by whole components -- same "
